@@ -220,7 +220,10 @@ class SimulationResult(dict):
         for pdist in mapped_result.values():
             for out_state in pdist:
                 unique_outputs.add(out_state)
-        array = np.zeros((len(self.inputs), len(unique_outputs)))
+        array = np.zeros(
+            (len(self.inputs), len(unique_outputs)),
+            dtype=np.result_type(self.array.dtype, float),
+        )
         for i, in_state in enumerate(self.inputs):
             for j, out_state in enumerate(unique_outputs):
                 if out_state in mapped_result[in_state]:
